@@ -380,6 +380,29 @@ func init() {
 				}
 			}
 		}
+		// POINTERS to maps, slices and arrays as what is indexed (a variable, a slice element, a loop variable, a
+		// method result): the element, or an error - never a panic
+		{
+			mp := map[string]c11kid{"k": {Name: "mp[k]"}}
+			sl := []c11kid{{Name: "sl[0]"}, {Name: "sl[1]"}}
+			ar := [2]c11kid{{Name: "ar[0]"}, {Name: "ar[1]"}}
+			var nilmp *map[string]c11kid
+			extra := map[string]interface{}{"pmp": &mp, "psl": &sl, "par": &ar, "pms": []*map[string]c11kid{&mp}, "nilmp": nilmp, "mkp": func() *map[string]c11kid { return &mp }, "pmi": &map[int]string{1: "one"}}
+			for _, src := range []string{`pmp["k"].Name`, `pmp["zz"].Name`, `pmp["k"]`, `psl[1].Name`, `psl[9].Name`, `par[0].Name`, `pms[0]["k"].Name`, `nilmp["k"]`, `mkp()["k"].Name`, `pmi[1]`, `pmi["x"]`, `pmp[0]`} {
+				for _, form := range []string{"[<%= X %>]", "<% let q = X %>[<%= q %>]", "<%= for (m) in pms { %>[<%= m[\"k\"].Name %>]<% } %><%= X %>"} {
+					tm := strings.Replace(form, "X", src, 1)
+					o := runRenderExtra(RCase{Tmpl: tm}, extra)
+					e.rep.Evaluations++
+					e.Count("pointers-to-collections")
+					e.Distinct(tm)
+					if o.Class == "PANIC" {
+						e.Violate("eval-panic@"+siteOf(o.Msg), fmt.Sprintf("Render panicked on %q: %s", tm, o.Msg), map[string]interface{}{"tmpl": tm, "observed": o})
+					} else if o.Class == "OK" && strings.HasPrefix(src, "psl[1]") && !strings.Contains(o.Out, "sl[1]") {
+						e.Violate("c11-other-element", fmt.Sprintf("%s: Go yields sl[1], the template rendered %q", tm, o.Out), map[string]interface{}{"tmpl": tm, "observed": o})
+					}
+				}
+			}
+		}
 		// one member name indexed at THREE or more levels of a path (n.Kids[0].Kids[1].Kids[0]): Go navigates it.
 		// (evalIndexCallee used to guess the name the indexed value is bound to by a substring search over
 		// printed paths and bound Kids.Kids where the parser's placeholder says Kids: repaired in round 13)
